@@ -7,8 +7,9 @@ package storage
 
 //@ type PartitionLog
 //@   protected_by mu: nextOffset, segments, indexEntries, flushing, flushingBatches
+//@   protected_by publishMu: lastPublished
 //@   immutable: namespace, topic, partition, s3, cache, cfg, buffer, onFlush, onS3Op, s3sem, flushCond
-//@   sync: mu, prefetchMu
+//@   sync: mu, prefetchMu, publishMu
 //@   complete
 
 //@ type WriteBuffer
